@@ -84,7 +84,8 @@ def _mk_status(kind):
                 if nx != 0:
                     return "ok"     # success replies carry no additional status; either reading of such a frame is accepted
                 return "ok" if truthy and err is None else "success-rejected:" + str(err)
-            if st == 6:
+            if st == 6 and kind not in ("read", "write", "read-modify-write"):
+                # Read Tag / Write Tag / Read-Modify-Write never continue: for them status 6 is an error like any other (falls through)
                 if svc in MUST_PARTIAL and kind in ("generic-connected", "read-fragmented", "write-fragmented", "send-unit-data") and nx == 0:
                     return "ok" if truthy else "partial-transfer-rejected"
                 if svc in MAY_PARTIAL:
